@@ -35,7 +35,7 @@ func (c07) Describe() engine.Info {
 		Rule: "scenario = cartridge (ROM-only / MBC1 / MBC3 / MBC5) + warm-up of 0..300 random I/O and cartridge-control pokes spread over up to two frames (machine state randomised) + 40 judged writes: class io walks FF00-FFFF (index selects the 40-address window) with random/edge values, class any picks addresses from all regions incl. region boundaries; between judged writes 0..3 cycles elapse. " +
 			"Oracle: before/after diff of all 65,536 readable locations around the single write; the set of changed locations must be a subset of the documented effect set of the address (own location and echo; ROM/RAM windows for cartridge control; DIV/TAC: FF04-FF05; LCDC: FF40, FF41, FF44; FF46: FF46 and FE00-FEFF; NR52: FF10-FF3F; NRx0/NRx2/NRx4: own, NR52, wave RAM window for channel 3; wave RAM: FF30-FF3F; LYC: FF45, FF41; TMA: FF06, FF05). Signature = (written register or region, LCD on, sound on, DMA running, changed-set class).",
 		Assumptions:    []string{"reads used for the observation are free of side effects (OAM is peeked)", "no machine cycle elapses between the two observations, so only the write can cause a difference"},
-		RequiredProbes: []string{"diffs", "write_with_lcd_on", "write_with_dma_running", "write_with_sound_on", "write_changed_other_location_legally"},
+		RequiredProbes: []string{"sound_warmup_all_channels_on", "diffs", "write_with_lcd_on", "write_with_dma_running", "write_with_sound_on", "write_changed_other_location_legally"},
 		RealComponents: realComponents, StubComponents: stubComponents,
 		Sweeps: []string{"every address of FF00-FFFF is written in some scenario of class io (256 addresses / 40 per scenario, index-enumerated)"},
 	}
@@ -63,7 +63,7 @@ func (c07) Generate(r *engine.Rand, index int, tier string) *engine.Scenario {
 	if index%3 == 2 {
 		// the registers with documented side effects, written in quick succession so that each is hit in many machine states
 		sc.Class = "hot"
-		hot := []uint16{0xff40, 0xff40, 0xff40, 0xff41, 0xff0f, 0xff45, 0xff46, 0xff04, 0xff07, 0xff05, 0xff06, 0xff26, 0xff26, 0xff10, 0xff12, 0xff14, 0xff17, 0xff19, 0xff1a, 0xff1e, 0xff21, 0xff23, 0xff30, 0xff3f, 0xff00, 0xffff, 0x0000, 0x2000, 0x4000, 0x6000}
+		hot := []uint16{0xff11, 0xff13, 0xff13, 0xff16, 0xff18, 0xff1b, 0xff1c, 0xff1d, 0xff20, 0xff22, 0xff24, 0xff25, 0xff40, 0xff40, 0xff40, 0xff41, 0xff0f, 0xff45, 0xff46, 0xff04, 0xff07, 0xff05, 0xff06, 0xff26, 0xff26, 0xff10, 0xff12, 0xff14, 0xff17, 0xff19, 0xff1a, 0xff1e, 0xff21, 0xff23, 0xff30, 0xff3f, 0xff00, 0xffff, 0x0000, 0x2000, 0x4000, 0x6000}
 		lcd := true
 		for i := 0; i < 40; i++ {
 			a := engine.Pick(r, hot)
@@ -256,6 +256,36 @@ func (c07) Execute(sc *engine.Scenario) *engine.Result {
 			}
 			m.RunCycles(uint64(r.Intn(80)))
 			res.Probe("timer_warmup")
+		})
+	}
+	if pi == nil && r.Chance(1, 2) {
+		// sound warm-up: all four channels playing, channel 1 with its sweep unit armed at a
+		// frequency just below the overflow limit, so that status bits are there to be lost
+		pi = machine.Protect(func() {
+			write(0xff26, 0x80)
+			shift := uint8(r.Range(1, 7))
+			write(0xff10, uint8(r.Range(1, 7))<<4|shift)
+			write(0xff12, 0xf0|r.Byte()&0x07)
+			// the largest f with f + (f >> shift) <= 2047, minus a little
+			f := 2047
+			for f+(f>>shift) > 2047 {
+				f--
+			}
+			f -= r.Intn(3)
+			f &^= 0xff // the low byte is what a later NR13 write supplies
+			write(0xff13, 0x00)
+			write(0xff14, 0x80|uint8(f>>8))
+			write(0xff17, 0xf0)
+			write(0xff19, 0x80|r.Byte()&0x07)
+			write(0xff1a, 0x80)
+			write(0xff1c, 0x20)
+			write(0xff1e, 0x80|r.Byte()&0x07)
+			write(0xff21, 0xf0)
+			write(0xff23, 0x80)
+			m.RunCycles(uint64(r.Intn(200)))
+			if m.Read(0xff26)&0x0f == 0x0f {
+				res.Probe("sound_warmup_all_channels_on")
+			}
 		})
 	}
 	if pi != nil {
